@@ -238,6 +238,14 @@ struct InclEngine : Engine {
 				t += "\n";
 				if (l > 12) break;
 			}
+			if (w.chance(1, 10)) {
+				// sizes around scan_file's 4096-byte read chunk (exact multiples and their neighbours)
+				static const size_t targets[] = {4095, 4096, 4097, 8192, 8191, 12288};
+				size_t target = targets[w.below(6)];
+				if (!t.empty() && t.back() != '\n') t.push_back('\n');
+				while (t.size() + 64 <= target) t += "filler filler filler filler filler filler filler filler filler 63\n";
+				if (t.size() < target) { t += std::string(target - t.size() - 1, 'y'); t.push_back('\n'); }
+			}
 			if (w.chance(1, 10)) t = "\xef\xbb\xbf" + t;
 			if (w.chance(1, 8) && !t.empty()) t.pop_back();
 			Json f = Json::object(), v = Json::array();
